@@ -282,3 +282,25 @@ package code
 //@   arith bv
 //@   modifies nothing
 //@   ensures regOK(result0) && result0.Idx() == idx && result0.IsCell()
+
+//@ func LoadStr1
+//@   prop C01
+//@   arith bv
+//@   requires len(b) >= 1
+//@   modifies nothing
+//@   ensures (regOK(r)) ==> (!result0.HasType1() && result0.TypePfx() == Type4Pfx && !result0.HasType4a() && !result0.GetF() && UnOpK(result0.GetUnOp()) == OpStr1)
+//@   ensures (regOK(r)) ==> (result0.GetA() == r && uint8(result0.GetL()) == b[0])
+
+// Every operator constant fits the bit field it is encoded in (a constant
+// added past the end of a full field would alias the neighbouring bits), and
+// the type prefixes are pairwise different values of the top four bits.
+//@ lemma codec/operator-widths
+//@   prop C01
+//@   arith bv
+//@   ensures OpConcat <= 15 && OpStr2 <= 3 && OpClStack <= 3 && OpEtcId <= 255 && OpStrN <= 255
+//@   ensures OpAdd == 0 && OpInt16 == 0 && OpCall == 0 && OpNeg == 0 && OpNil == 0
+//@   ensures Type2Pfx != Type3Pfx && Type2Pfx != Type4Pfx && Type2Pfx != Type5Pfx && Type2Pfx != Type6Pfx && Type2Pfx != Type7Pfx && Type2Pfx != Type0Pfx
+//@   ensures Type3Pfx != Type4Pfx && Type3Pfx != Type5Pfx && Type3Pfx != Type6Pfx && Type3Pfx != Type7Pfx && Type3Pfx != Type0Pfx
+//@   ensures Type4Pfx != Type5Pfx && Type4Pfx != Type6Pfx && Type4Pfx != Type7Pfx && Type4Pfx != Type0Pfx && Type5Pfx != Type6Pfx && Type5Pfx != Type7Pfx && Type5Pfx != Type0Pfx
+//@   ensures Type6Pfx != Type7Pfx && Type6Pfx != Type0Pfx && Type7Pfx != Type0Pfx
+//@   ensures Type2Pfx & 0x0fffffff == 0 && Type3Pfx & 0x0fffffff == 0 && Type4Pfx & 0x0fffffff == 0 && Type5Pfx & 0x0fffffff == 0 && Type6Pfx & 0x0fffffff == 0 && Type7Pfx & 0x0fffffff == 0 && Type1Pfx == 0x80000000
